@@ -457,7 +457,8 @@ def check(tier, seed, procs):
             '"first" exception = the partial function that raised first in the executed schedule',
             'the second call by the same caller (made when the caller was not cancelled) is run in FIFO order only (no exploration)',
         ],
-        'vacuous': f'never exercised: {missing}' if missing else None,
+        # a reported violation is itself evidence that the run was not vacuous (a broken implementation may skip a feature)
+        'vacuous': f'never exercised: {missing}' if missing and not violations else None,
     }
 
 
